@@ -13,6 +13,10 @@ From ArchSim Require Export Model.Base.
 From ArchSim Require Import Model.RV.
 Open Scope Z_scope.
 
+(* no shared cache file: the lemma files are compiled in parallel *)
+#[global] Unset Lia Cache.
+#[global] Unset Nia Cache.
+
 Ltac Zify.zify_post_hook ::= Z.to_euclidean_division_equations.
 
 Lemma div_in32 a b : 0 <= a < 4294967296 -> 0 < b -> (a / b) mod 4294967296 = a / b.
@@ -46,13 +50,13 @@ Ltac word_norm :=
 (* syntactic equality only (a non-linear Ltac pattern would test convertibility) *)
 Ltac syn_refl := match goal with |- ?x = ?y => constr_eq x y; reflexivity end.
 
-(* both sides closed: evaluate *)
+(* both sides closed (no variable at all): evaluate *)
+Ltac has_var t := match t with context [?v] => is_var v end.
 Ltac closed_refl :=
   match goal with
   | |- ?x = ?y =>
-      let vx := eval vm_compute in x in
-      let vy := eval vm_compute in y in
-      constr_eq vx vy; vm_compute; reflexivity
+      tryif has_var x then fail else
+      tryif has_var y then fail else (vm_compute; reflexivity)
   end.
 
 (* [f_equal] only below syntactically equal heads (it pairs arguments positionally otherwise) *)
